@@ -116,8 +116,8 @@ CHECKS = {
     ),
     "C08": dict(
         bins=["c08"], replay_bin="c08", campaigns=lambda tier, seed: [dict(name="c08", bin="c08", shards=16, timeout=3000)], level="exploration",
-        rule=("pump patterns prefix(state) + unit^k + suffix over 63 (parser state, unit) pairs on both directions (header lines with the same / distinct / empty / missing names, folded "
-              "lines, whitespace, NUL bytes, empty lines before a message, request-line and status-line whitespace, percent escapes, dot segments, query / cookie / urlencoded / "
+        rule=("pump patterns prefix(state) + unit^k + suffix over 64 (parser state, unit) pairs on both directions (header lines with the same / distinct / empty / missing names, folded "
+              "lines, whitespace, NUL bytes, empty lines before a message, request-line and status-line whitespace, percent escapes, dot segments (also with a normalised output that keeps growing while '..' segments are removed), query / cookie / urlencoded / "
               "digest parameters, chunks, chunk-size leading zeros / extensions / whitespace+digits / empty lines, trailers, multipart parts / part headers / data lines / "
               "near-boundary lines, pipelined requests, HTTP/0.9 junk, Content-Encoding token lists, interim 100 responses, bodies without status line) x generated unit "
               "parameters x delivery {one chunk, 1 byte, 7 bytes, 1460 bytes per call} x 10 personalities; k on a doubling ladder 64..4096 (thorough ..16384). Work = executed "
@@ -219,7 +219,7 @@ CHECKS = {
         rule=("list: every op sequence over {push,pop,shift,replace} up to depth 11 (thorough 13) on capacities 1..3 (exhaustive BFS) "
               "plus rapidcheck sequences of up to 120 ops incl. get/clear, each step compared with std::deque; table: rapidcheck op sequences "
               "over the three key-ownership modes vs an insertion-ordered vector with case-insensitive first-match; byte strings: all argument "
-              "pairs over {a,A,b,NUL,SP}^<=4 through 30+ functions vs naive std::string references; numbers: digit strings within 3 of 26 "
+              "pairs over {a,A,b,NUL,SP}^<=4 and over {a,Z,z,0xE9,0x80,NUL}^<=3 (ordering is on unsigned bytes) through 30+ functions vs naive std::string references; numbers: digit strings within 3 of 26 "
               "boundary magnitudes (2^31, 2^32, INT64_MAX/base, INT64_MAX, 2^64 ...) x 9 prefixes x 9 suffixes x 8 parsers plus random strings vs "
               "unsigned __int128. Non-trivial = list history that wrapped the ring AND grew while first != 0; table history with duplicate keys "
               "differing in case that outgrew its capacity; byte-string pair with NUL or upper case in the haystack; numeric string at a boundary."),
@@ -231,7 +231,7 @@ CHECKS = {
         replay_env={"ASAN_OPTIONS": "detect_leaks=0:abort_on_error=0:allocator_may_return_null=1"},
         rule=("inputs: the repository's 100+ captures (suite chunking, varied configuration: file extraction, auto-destroy, request decompression) and rapidcheck-generated scenarios "
               "(exchanges with cookies / Basic+Digest auth / folding / trailers / 100-continue / pipelining, multipart with file parts and extraction, urlencoded bodies with chunked "
-              "framing, gzip / deflate / two-layer / LZMA coded bodies in both directions, CONNECT refused and tunnelled, malformed mixes; 10 personalities, shared configuration copy). "
+              "framing, gzip / deflate / two-layer / LZMA coded bodies in both directions, CONNECT refused and tunnelled, malformed mixes, container-growth shapes that push every list / table / builder past its initial capacity (>32 header fields per direction, >16 transactions, >32 parameters and cookies, >16 multipart parts and 40 part headers, >8 log records, one field in 1..4-byte pieces); 10 personalities, shared configuration copy). "
               "For each input the N allocations (malloc/calloc/realloc/strdup of libhtp, in-tree LZMA and statically linked zlib, wrapped at link time) of the fault-free run are counted, "
               "then the input is re-run once for EVERY k in 1..N with the k-th allocation returning NULL, under ASan+UBSan, in forked children (a crash is recorded and the "
               "enumeration continues with k+1). Non-trivial = the failed allocation happened after parser creation (mid-stream); counted per (input, k)"),
@@ -242,8 +242,8 @@ CHECKS = {
         bins=["c19", "c19t"], replay_bin="c19", replay_route=[("c19t ", "c19t", ["--mode", "threads"])],
         campaigns=lambda tier, seed: [dict(name="interleaved_calls", bin="c19", shards=16, timeout=3000),
                                       dict(name="threads_tsan", bin="c19t", shards=8, shards_flexible=False, timeout=3000, args=["--mode", "threads"])], level="exploration",
-        rule=("rapidcheck cases of 2..8 connections (generated exchanges, multipart with/without file extraction, urlencoded + auth, gzip/deflate coded bodies, UTF-8 / best-fit / "
-              "malformed targets; each with its own chunking; 10 personalities, decoder switches, auto-destroy) driven from ONE shared htp_cfg_t: (a) on one thread with the calls "
+        rule=("rapidcheck cases of 2..8 connections (generated exchanges, multipart with/without file extraction, urlencoded + auth, gzip / deflate / two-layer / LZMA-alone coded bodies with per-connection LZMA properties, chunked bodies with extensions, trailers, folded and repeated fields, "
+              "pipelines of 4..14 transactions, CONNECT refused / tunnelled, close-delimited HTTP/1.0, UTF-8 / best-fit / malformed targets; each with its own chunking (random cuts, a cut after every line end, a cut inside the first 13 body bytes, small fixed pieces); 10 personalities, decoder switches, auto-destroy) driven from ONE shared htp_cfg_t: (a) on one thread with the calls "
               "of all connections merged in a generated order (random / round-robin / mostly sequential), parsers created at their first call and destroyed as soon as they finish "
               "while the others continue (ASan+UBSan build); (b) one thread per connection released by a barrier with generated start skews (ThreadSanitizer build, 8 processes). "
               "Oracle: each connection's canonical dump + complete callback trace + per-call results == its solo run with a private configuration; byte snapshot of the shared "
